@@ -401,8 +401,8 @@ def r5_batch_axes(repo: Repo, rep):
         bound = any(k == "assert" and dump(g) == f"{d} < len(self._t.shape)" for g, pol, k in p.guards)
         good = c is not None and dump(c.args[1]) == "self.space" and bound and bool(neg)
         if good:
-            want = f"self._t.unsqueeze(dim={d} - 1)" if neg[0] else f"self._t.unsqueeze(dim={d})"
-            good = dump(c.args[0]) == want
+            want = f"self._t.unsqueeze({d} - 1)" if neg[0] else f"self._t.unsqueeze({d})"
+            good = dump(c.args[0]).replace("dim=", "") == want
         rep.check(R, good, fi.site(p.ret_node), fi.fq, "new axis never after the column axis (negative dims shifted by one, dim < ndim asserted)", dump(p.ret), dump(p.ret))
 
 
